@@ -272,8 +272,9 @@ func TestC27(t *testing.T) {
 			more, _ := sys.ReadAllTimeout(c, 5*time.Second)
 			rest = append(rest, more...)
 			sm, serr := ref.ParseResponse(rest, "GET", true)
-			if serr == nil && flush == "c27ka" && (closeAfter || stale != "") && sm.Status/100 == 5 && len(rest) == sm.ConsumedLen {
-				// the harness backend closed a connection BFE was entitled to keep (e.g. HTTP/1.0 +
+			if serr == nil && flush == "c27ka" && sm.Status/100 == 5 && len(rest) == sm.ConsumedLen {
+				// the harness backend closed a connection BFE was entitled to keep (in this or an earlier
+				// case: connections are retired after injected misbehaviour; or e.g. HTTP/1.0 +
 				// Connection: keep-alive, then close): the sentinel ran into the stale pooled
 				// connection (or into the stale bytes the backend left on it) and BFE answered 5xx -
 				// well-formed and aligned, which is all that matters here
